@@ -101,6 +101,13 @@ theorem file_fixed_fields (e : Event) (j : Json) (h : fileRecord e = some j) :
 
 def fixedNames : List String := ["ts_start", "ts", "mdl", "msg", "tpl"]
 
+theorem reservedKey_iff (k : String) : reservedKey k = true ↔ k ∈ fixedNames := by
+  unfold reservedKey fixedNames
+  simp [Bool.or_eq_true]
+  constructor
+  · rintro ((((h | h) | h) | h) | h) <;> simp [h]
+  · rintro (h | h | h | h | h) <;> simp [h]
+
 theorem fixedFields_keys (e : Event) : ∀ k ∈ keys (fixedFields e), k ∈ fixedNames := by
   unfold fixedFields fixedNames
   cases e.extent <;> simp [keys]
@@ -109,11 +116,10 @@ theorem fixedFields_nodup (e : Event) : (keys (fixedFields e)).Nodup := by
   unfold fixedFields
   cases e.extent <;> simp [keys]
 
-/-- FULL STATEMENT (false on the code, see `file_fixed_name_duplicates`): the member names of a record are
-    pairwise distinct. PROVED under the hypothesis that no property is named like a fixed field (F2). -/
-theorem file_members_unique_partial (e : Event) (ms : List (String × Json))
+/-- The member names of a record are pairwise distinct — for every event, including those with duplicate
+    property keys and with properties named like a built-in field (F2, repaired: such a property is skipped). -/
+theorem file_members_unique (e : Event) (ms : List (String × Json))
     (hu : UniqueOk e.unique e.props)
-    (hF2 : ∀ k ∈ keys e.props, k ∉ fixedNames)
     (h : fileRecord e = some (.obj ms)) : (keys ms).Nodup := by
   obtain ⟨ps, hp, hj, _⟩ := file_fixed_fields e _ h
   cases hj
@@ -122,38 +128,43 @@ theorem file_members_unique_partial (e : Event) (ms : List (String × Json))
   refine List.nodup_append.mpr ⟨fixedFields_nodup e, ?_, ?_⟩
   · have := dedup_nodup e.unique e.props hu
     simp only [keys] at hk this
-    rw [hk]; exact this
+    rw [hk]; exact this.filter _
   · intro a ha b hb hab
     subst hab
-    have h1 := fixedFields_keys e a ha
-    have h2 : a ∈ keys e.props := by
-      have : a ∈ keys ps := hb
-      rw [hk] at this
-      exact (dedup_keys e.unique e.props a).mp this
-    exact hF2 a h2 h1
+    have h1 := (reservedKey_iff a).mpr (fixedFields_keys e a ha)
+    have : a ∈ keys ps := hb
+    rw [hk, List.mem_filter] at this
+    simp [h1] at this
 
-/-- F2 on the model = on the code: a property named `msg` yields a second `msg` member. -/
-theorem file_fixed_name_duplicates :
-    fileRecord ⟨"m", [], .none, false, [("msg", .simple (.int 1))]⟩ =
-      some (.obj [("mdl", .str "m"), ("msg", .str ""), ("tpl", .str ""), ("msg", .int 1)]) := by
-  rfl
+/-- the built-in member wins over a property of the same (reserved) name: it is the only member of that name -/
+theorem file_reserved_key_not_written (e : Event) (ms ps : List (String × Json))
+    (hp : propFields e.deduped = some ps) (_h : fileRecord e = some (.obj ms)) :
+    ∀ k ∈ fixedNames, k ∉ keys ps := by
+  intro k hk hin
+  rw [propFields_keys _ _ hp, List.mem_filter] at hin
+  simp [(reservedKey_iff k).mpr hk] at hin
 
-/-- Every property appears in the record under its key with its FIRST value, structure rendered by `toJson`. -/
+/-- Every property whose key is not reserved appears in the record under its key with its FIRST value,
+    structure rendered by `toJson` (with `file_members_unique`: exactly once). -/
 theorem file_prop_first_value (e : Event) (ms : List (String × Json)) (k : String) (v : PV)
-    (h : fileRecord e = some (.obj ms)) (hv : lookupFirst k e.props = some v) :
+    (h : fileRecord e = some (.obj ms)) (hv : lookupFirst k e.props = some v) (hk : k ∉ fixedNames) :
     ∃ j, toJson v.image = some j ∧ (k, j) ∈ ms := by
   obtain ⟨ps, hp, hj, _⟩ := file_fixed_fields e _ h
   cases hj
   have hd : lookupFirst k e.deduped = some v := by
     unfold Event.deduped; rw [dedup_lookup]; exact hv
-  obtain ⟨j, h1, h2⟩ := propFields_mem _ _ hp k v (mem_of_lookupFirst _ _ _ hd)
+  have hr : reservedKey k = false := by
+    cases hrk : reservedKey k with
+    | false => rfl
+    | true => exact absurd ((reservedKey_iff k).mp hrk) hk
+  obtain ⟨j, h1, h2⟩ := propFields_mem _ _ hp k v (mem_of_lookupFirst _ _ _ hd) hr
   exact ⟨j, h1, List.mem_append_right _ h2⟩
 
-/-- An event is discarded (nothing is written, the failure is counted) exactly when one of its de-duplicated
-    property values cannot be written as JSON — i.e. contains a map keyed by a sequence, map, byte string,
+/-- An event is discarded (nothing is written, the failure is counted) exactly when one of its written
+    property values cannot be expressed as JSON — i.e. contains a map keyed by a sequence, map, byte string,
     tuple, record or data-carrying variant (`keyText = none`). Nothing else is ever lost by the file writer. -/
 theorem file_discard_iff (e : Event) :
-    fileLine e = none ↔ ∃ p ∈ e.deduped, toJson p.2.image = none := by
+    fileLine e = none ↔ ∃ p ∈ e.deduped, reservedKey p.1 = false ∧ toJson p.2.image = none := by
   unfold fileLine fileRecord
   rw [← propFields_none_iff]
   cases propFields e.deduped <;> simp
@@ -327,7 +338,6 @@ def sampleEvent : Event :=
 example : UniqueOk sampleEvent.unique sampleEvent.props := by simp [UniqueOk, sampleEvent]
 example : NoExceptionClash sampleEvent.props := by
   intro _; simp [keys, sampleEvent]
-example : ∀ k ∈ keys sampleEvent.props, k ∉ fixedNames := by decide
 example : PropsKeysOk sampleEvent.props := by
   intro p hp
   simp only [sampleEvent, List.mem_cons, List.not_mem_nil, or_false] at hp
